@@ -225,7 +225,10 @@ def _run_system(unit, rec):
                                       case, observed=True, expected=dict(target=t, distance=dist), script=_script(spec, [t], relative, False))
                 rec.outcome("%s/%s" % (cls, "accepted" if a else "rejected"))
             # single-row calls must agree with the batch answer
-            for idx in (0, len(T) // 2, len(T) - 1):
+            decided = [i for i in range(len(T)) if T[i][0] == "strict-interior" or (fulldim and abs(margins[i]) >= delta)]
+            # (boundary targets may legitimately be answered either way, also differently from call to call: qhull's point
+            #  location starts its walk from the previous query's simplex)
+            for idx in (decided[:1] + decided[len(decided) // 2 : len(decided) // 2 + 1] + decided[-1:]):
                 rec.path()
                 rec.trans()
                 try:
@@ -238,8 +241,9 @@ def _run_system(unit, rec):
             # in_gamut alias
             rec.trans()
             try:
-                a2 = np.asarray(est.in_gamut(P[:5], relative=relative))
-                if not np.array_equal(a2, ans[:5]):
+                dsel = np.array(decided[:5], dtype=int)
+                a2 = np.asarray(est.in_gamut(P[dsel], relative=relative)) if len(dsel) else np.zeros(0, dtype=bool)
+                if not np.array_equal(a2, ans[dsel]):
                     _v(rec, "e", dict(sig, exc="alias"), "in_gamut differs from in_hull", dict(relative=relative, alias=True))
             except Exception as e:  # noqa
                 _v(rec, "e", dict(sig, exc=type(e).__name__, arg="alias"), "in_gamut raised %r" % (e,), dict(relative=relative, alias=True))
